@@ -1404,3 +1404,18 @@ fn agentpack_command_id(argv: &[String]) -> Option<String> {
 
     Some(command_id)
 }
+
+#[cfg(agentpack_verif)]
+pub(crate) fn verif_extract_bash_commands(markdown: &str) -> Vec<(usize, String)> {
+    extract_bash_commands(markdown)
+}
+
+#[cfg(agentpack_verif)]
+pub(crate) fn verif_extract_agentpack_invocations(line: &str) -> Vec<Vec<String>> {
+    extract_agentpack_invocations(line)
+}
+
+#[cfg(agentpack_verif)]
+pub(crate) fn verif_agentpack_command_id(argv: &[String]) -> Option<String> {
+    agentpack_command_id(argv)
+}
